@@ -14,6 +14,7 @@ property directly on the objects the real code returned (computed during the sam
 from __future__ import annotations
 
 import os
+import re
 import random
 import sys
 
@@ -32,7 +33,7 @@ ArgsNamespaceMeta = type(ArgsNamespace)
 ERR_NAMES = [
     "IncompatibleRenderArgsError", "IncompatibleArgsNamespaceError", "NoArgsNamespaceError",
     "ValueError", "TypeError", "UnknownArgsFieldError", "RenderArgsError", "RenderArgsDataError",
-    "UnassociatedNamespaceError", "RenderDataError", "UnknownDataFieldError",
+    "UnassociatedNamespaceError", "RenderDataError", "UnknownDataFieldError", "AttributeError",
 ]
 
 _ctr = [0]
@@ -93,6 +94,12 @@ def field_name(nscls, idx):
     return f"f{idx}" if j == 0 else names[(j - 1) % len(names)]
 
 
+def attr_name(nscls, idx):
+    """for attribute access: a field, or a name that is no attribute at all (f<n>, x, baz)"""
+    nf = len(nscls.get_fields())
+    return f"f{idx}" if idx <= nf else ["x", "baz"][(idx - nf - 1) % 2]
+
+
 def n_unknown_names(nscls):
     field_name(nscls, 0)
     return 1 + len(_NAME_POOL[nscls][1])
@@ -107,8 +114,12 @@ def tok_vals(vs):
     return tok_list(vs, lambda x: str(im(x)))
 
 
+def ns_tag(ns):
+    return ns[2] if len(ns) > 2 else 0
+
+
 def tok_ns(ns):
-    return f"{ns[0]} {tok_vals(ns[1])}"
+    return f"{ns[0]} {tok_vals(ns[1])} {ns_tag(ns)}"
 
 
 def tok_fields(fs):
@@ -147,7 +158,21 @@ def cmd_tokens(c) -> str:
     if op == "get":
         return f"get {c[1]} {c[2]}"
     if op == "nsi":
-        return f"nsi {c[1]} {tok_vals(c[2])} {tok_fields(c[3])}"
+        return f"nsi {c[1]} {c[4] if len(c) > 4 else 0} {tok_vals(c[2])} {tok_fields(c[3])}"
+    if op == "ds":
+        return f"ds {c[1]} {c[3]}"
+    if op == "nseq":
+        return f"nseq {tok_ns(c[1])} {tok_ns(c[2])}"
+    if op == "nshash":
+        return f"nshash {tok_ns(c[1])}"
+    if op == "attr":
+        return f"attr {tok_ns(c[1])} {c[2]}"
+    if op == "seta":
+        return f"seta {tok_ns(c[1])} {c[2]} {im(c[3])}"
+    if op == "dela":
+        return f"dela {tok_ns(c[1])} {c[2]}"
+    if op == "gett":
+        return f"gett {c[1]}"
     if op == "nsu":
         return f"nsu {tok_ns(c[1])} {tok_fields(c[2])}"
     # def-history commands
@@ -187,6 +212,8 @@ class World:
         self.defaults = {0: None}
         self.parent = {0: None}
         self.objs = [T.BASE_RENDER_ARGS]
+        self.nssub = {}  # class index -> [Args, Sub1, Sub2, …] (the namespace-class family; tag = position)
+        self.live_ns = []  # namespace instances made during the history (for the all-pairs eq/hash check)
         self.problems: list[tuple[str, str]] = []  # oracle findings (key, what)
 
     # -- helpers
@@ -204,10 +231,26 @@ class World:
         return out  # self first
 
     def ns(self, spec):
-        return self.nscls[spec[0]](*[pv(x) for x in spec[1]])
+        inst = self.nssub[spec[0]][ns_tag(spec)](*[pv(x) for x in spec[1]])
+        self.note_ns(inst)
+        return inst
+
+    def note_ns(self, inst):
+        if len(self.live_ns) < 60:
+            self.live_ns.append(inst)
 
     def ns_val(self, ns):
         return (self.idx(ns.get_render_cls()), tuple(ns.as_dict().values()))
+
+    def ns_fmt(self, ns):
+        """<class>[~<which subclass of the namespace class>]:<field values>"""
+        ci, vals = self.ns_val(ns)
+        fam = self.nssub.get(ci, [])
+        tag = next((t for t, k in enumerate(fam) if type(ns) is k), -1)
+        return f"{ci}{'' if tag == 0 else '~' + str(tag)}:{ints(vals)}"
+
+    def fmt_ra(self, ra):
+        return f"{self.idx(ra.render_cls)}/" + ";".join(self.ns_fmt(ns) for ns in ra)
 
     def value(self, ra):
         """(class index, [(class index, field values)…]) through the public API only"""
@@ -247,7 +290,14 @@ class World:
                 body.update({f"f{j}": v for j, v in enumerate(c[2])})
                 self.nscls[ci] = ArgsNamespaceMeta(f"A{_ctr[0]}", (ArgsNamespace,), body, render_cls=cls)
                 self.defaults[ci] = tuple(c[2])
+                self.nssub[ci] = [self.nscls[ci]]
             return f"c{ci}"
+        if op == "ds":  # class Sub(<a class of the family of ci>): pass  — inherits fields and association
+            _ctr[0] += 1
+            fam = self.nssub[c[1]]
+            assert c[3] == len(fam)
+            fam.append(ArgsNamespaceMeta(f"S{_ctr[0]}", (fam[c[2]],), {}))
+            return f"s{c[3]}"
         try:
             if op == "mk":
                 init = [] if c[2] is None else [self.objs[c[2]]]
@@ -282,17 +332,38 @@ class World:
                 return "1" if self.ns(c[2]) in self.objs[c[1]] else "0"
             elif op == "get":
                 ns = self.objs[c[1]][self.classes[c[2]]]
-                v = self.ns_val(ns)
-                return f"n/{v[0]}:{ints(v[1])}"
+                self.note_ns(ns)
+                return "n/" + self.ns_fmt(ns)
             elif op == "nsi":
-                ns = self.nscls[c[1]](*[pv(x) for x in c[2]], **self.kw(c[3], c[1]))
-                v = self.ns_val(ns)
-                return f"n/{v[0]}:{ints(v[1])}"
+                ns = self.nssub[c[1]][c[4] if len(c) > 4 else 0](*[pv(x) for x in c[2]], **self.kw(c[3], c[1]))
+                self.note_ns(ns)
+                return "n/" + self.ns_fmt(ns)
             elif op == "nsu":
                 self.last_operand = self.ns(c[1])
                 ns = self.last_operand.update(**self.kw(c[2], c[1][0]))
+                self.note_ns(ns)
+                return "n/" + self.ns_fmt(ns)
+            elif op == "nseq":
+                return "1" if self.ns(c[1]) == self.ns(c[2]) else "0"
+            elif op == "nshash":
+                ns = self.ns(c[1])
+                hash(ns)  # must be hashable
                 v = self.ns_val(ns)
-                return f"n/{v[0]}:{ints(v[1])}"
+                return f"g{v[0]}:{ints(v[1])}"
+            elif op == "attr":
+                self.last_operand = self.ns(c[1])
+                return f"v{im(getattr(self.last_operand, attr_name(self.nscls[c[1][0]], c[2])))}"
+            elif op == "seta":
+                self.last_operand = self.ns(c[1])
+                setattr(self.last_operand, attr_name(self.nscls[c[1][0]], c[2]), pv(c[3]))
+                return "set"
+            elif op == "dela":
+                self.last_operand = self.ns(c[1])
+                delattr(self.last_operand, attr_name(self.nscls[c[1][0]], c[2]))
+                return "deleted"
+            elif op == "gett":
+                self.objs[c[1]][[] if c[2] == 0 else (int if c[2] == 1 else "Renderable")]
+                return "found"
             else:
                 return "harness-bad-op"
         except Exception as e:  # noqa: BLE001
@@ -303,7 +374,7 @@ class World:
         if v[0] == -1:  # e.g. returned without ever being initialised
             return f"broken-object {v[1][0][1][0]}"
         i = self.register(res)
-        return f"r{i}/" + self.fmt_val(self.value(res))
+        return f"r{i}/" + self.fmt_ra(res)
 
     def cleanup(self):
         interned = getattr(RenderArgs, "_interned", None)
@@ -441,6 +512,13 @@ def snapshot_diff(b, a):
     return None
 
 
+def describe(w, o):
+    try:
+        return ("set " + w.fmt_ra(o)) if isinstance(o, RenderArgs) else ("namespace " + w.ns_fmt(o))
+    except Exception:  # noqa: BLE001
+        return object.__repr__(o)
+
+
 def same_value(a, b):
     """same class, same namespaces (the order of namespaces is not part of the contract)"""
     return a[0] == b[0] and sorted(a[1]) == sorted(b[1])
@@ -452,6 +530,7 @@ def replay(cmds, with_oracle=True):
     spec = Spec(w)
     out = []
     problems = []
+    snaps = []
     try:
         for n, c in enumerate(cmds):
             exp = None
@@ -460,20 +539,22 @@ def replay(cmds, with_oracle=True):
                 # only when the code under test numbered its results differently from the recorded run
                 out.append("no-such-object")
                 continue
-            if with_oracle and c[0] != "dc":
+            if with_oracle and c[0] not in ("dc", "ds"):
                 try:
                     exp = spec.expect(c)
                 except Exception as e:  # noqa: BLE001
                     exp = None
                     problems.append((f"oracle-crash/{c[0]}", repr(e)))
-                before = [snapshot(w, o) for o in w.objs]
+                # the snapshots taken after the previous operation are this operation's "before"
+                before = snaps + [snapshot(w, o) for o in w.objs[len(snaps):]]
             r = w.exec(c)
             out.append(r)
-            if not with_oracle or c[0] == "dc":
+            if not with_oracle or c[0] in ("dc", "ds"):
                 continue
             where = f"{c[0]}"
-            for oi, (o, b) in enumerate(zip(w.objs, before)):
-                diff = snapshot_diff(b, snapshot(w, o))
+            snaps = [snapshot(w, o) for o in w.objs]
+            for oi, (a, b) in enumerate(zip(snaps, before)):
+                diff = snapshot_diff(b, a)
                 if diff:
                     problems.append((f"mutated/{where}", f"op #{n} {c} altered existing object {oi} "
                                      f"(a set for class {b[2][0]}): {diff}"))
@@ -507,6 +588,28 @@ def replay(cmds, with_oracle=True):
                 want = (c[2][0], tuple(pv(x) for x in c[2][1])) in v[1]
                 if (r == "1") != want:
                     problems.append(("contains", f"op #{n} {c}: `in` is {r}, expected {want}"))
+            elif c[0] == "nseq":
+                a, b = c[1], c[2]
+                want = a[0] == b[0] and [pv(x) for x in a[1]] == [pv(x) for x in b[1]]
+                if (r == "1") != want:
+                    problems.append(("ns-eq", f"op #{n} {c}: == is {r}, same class and field values is {want}"))
+            elif c[0] == "nshash":
+                if r != f"g{c[1][0]}:{ints(pv(x) for x in c[1][1])}":
+                    problems.append(("ns-hash", f"op #{n} {c}: got {r}"))
+            elif c[0] == "attr":
+                vals = [pv(x) for x in c[1][1]]
+                want = f"v{im(vals[c[2]])}" if c[2] < len(vals) else "E:UnknownArgsFieldError"
+                if r != want:
+                    problems.append(("getattr", f"op #{n} {c}: got {r}, expected {want}"))
+            elif c[0] in ("seta", "dela"):
+                if r != "E:AttributeError":
+                    problems.append((f"immutable/{c[0]}", f"op #{n} {c}: expected AttributeError, got {r}"))
+                after_vals = w.ns_val(w.last_operand)[1]
+                if [repr(x) for x in after_vals] != [repr(pv(x)) for x in c[1][1]]:
+                    problems.append((f"mutated/{c[0]}", f"op #{n} {c}: the namespace was altered: {after_vals}"))
+            elif c[0] == "gett":
+                if r != "E:TypeError":
+                    problems.append(("getitem-type", f"op #{n} {c}: expected TypeError, got {r}"))
             elif c[0] == "nsu":
                 ci, vals = c[1][0], [pv(x) for x in c[1][1]]
                 nf = len(w.defaults[ci])
@@ -518,7 +621,8 @@ def replay(cmds, with_oracle=True):
                     want = list(vals)
                     for f in c[2]:
                         want[f[0]] = pv(f[1])
-                    if r != f"n/{ci}:{ints(want)}":
+                    tg = ns_tag(c[1])
+                    if r != f"n/{ci}{'' if tg == 0 else '~' + str(tg)}:{ints(want)}":
                         problems.append(("value/nsu", f"op #{n} {c}: got {r}, expected {want}"))
                 op_after = w.ns_val(w.last_operand)
                 if [repr(x) for x in op_after[1]] != [repr(x) for x in vals]:
@@ -537,7 +641,8 @@ def replay(cmds, with_oracle=True):
                     vals = [pv(x) for x in c[2]] + d[len(c[2]):]
                     for f in c[3]:
                         vals[f[0]] = pv(f[1])
-                    want = f"n/{ci}:{ints(vals)}"
+                    tg = c[4] if len(c) > 4 else 0
+                    want = f"n/{ci}{'' if tg == 0 else '~' + str(tg)}:{ints(vals)}"
                 if r != want:
                     key = "unknown-field/nsi" if want == "E:UnknownArgsFieldError" else "value/nsi"
                     problems.append((key, f"op #{n} {c} (keywords {sorted(w.kw(c[3], ci))}): got {r}, expected {want}"))
@@ -550,22 +655,73 @@ def replay(cmds, with_oracle=True):
                     want = "E:NoArgsNamespaceError"
                 else:
                     want = "E:ValueError"
-                if r != want:
+                if re.sub(r"~\d+", "", r) != want:
                     problems.append(("getitem", f"op #{n} {c}: got {r}, expected {want}"))
         if with_oracle:
             # all pairs: equal <-> same class and same values; equal -> equal hashes
             vals = [w.value(o) for o in w.objs]
+            svals = [(v[0], sorted(v[1])) for v in vals]
             for i, a in enumerate(w.objs):
-                for j, b in enumerate(w.objs):
+                for j in range(i + 1):
+                    b = w.objs[j]
                     try:
-                        a == b, hash(a), hash(b)
+                        e1, e2 = a == b, b == a
                     except Exception as e:  # noqa: BLE001
-                        problems.append(("eq-crash", f"objects {i},{j}: ==/hash raised {type(e).__name__}"))
+                        problems.append(("eq-crash", f"objects {i},{j}: == raised {type(e).__name__}"))
                         continue
-                    if (a == b) != same_value(vals[i], vals[j]):
-                        problems.append(("eq-pairs", f"objects {i},{j}: == is {a == b}, values {vals[i]} / {vals[j]}"))
-                    elif a == b and hash(a) != hash(b):
-                        problems.append(("hash-pairs", f"objects {i},{j} are equal but hash differently"))
+                    if e1 != (svals[i] == svals[j]) or e1 != e2:
+                        problems.append(("eq-pairs", f"objects {i},{j}: == is {e1}/{e2}, values {vals[i]} / {vals[j]}"))
+            # every pair of live objects (sets and namespaces, however they were made): equal => equal hashes,
+            # and membership in a set / lookup as a dict key agrees with ==
+            live = list(w.live_ns)
+            for o in w.objs:
+                try:
+                    live += [ns for ns in o if all(ns is not x for x in live)][: max(0, 80 - len(live))]
+                except Exception:  # noqa: BLE001
+                    pass
+            for kind, group in (("sets", list(w.objs)), ("namespaces", live)):
+                seen, bag, table = [], set(), {}
+                for i, a in enumerate(group):
+                    try:
+                        eq_to = [j for j, b in enumerate(seen) if a == b]
+                        for j in eq_to:
+                            if hash(a) != hash(seen[j]):
+                                problems.append((f"hash/{kind}", f"{kind} {describe(w, a)} and {describe(w, seen[j])} "
+                                                 "are equal but hash differently"))
+                                break
+                        if (a in bag) != bool(eq_to) or (a in table) != bool(eq_to):
+                            problems.append((f"hash-lookup/{kind}", f"{describe(w, a)} equals an earlier object "
+                                             f"({bool(eq_to)}) but set/dict membership says {a in bag}/{a in table}"))
+                        bag.add(a)
+                        table.setdefault(a, i)
+                        seen.append(a)
+                    except Exception as e:  # noqa: BLE001
+                        problems.append((f"hash-crash/{kind}", f"{describe(w, a)}: {type(e).__name__}: {e}"))
+                        break
+            # comparison with / combination with foreign objects (NotImplemented paths), repr, as_dict, get_fields
+            for o in w.objs[:6]:
+                if (o == 5) is not False or (o != 5) is not True or o.__eq__(5) is not NotImplemented:
+                    problems.append(("eq-foreign/sets", f"{describe(w, o)} == 5 is not False/NotImplemented"))
+                want = f"RenderArgs({o.render_cls.__name__}" + "".join(", " + repr(ns) for ns in o) + ")"
+                if repr(o) != want:
+                    problems.append(("repr/sets", f"repr is {repr(o)!r}, expected {want!r}"))
+            for ns in live[:10]:
+                if (ns == 5) is not False or ns.__eq__(5) is not NotImplemented \
+                        or ns.__or__(5) is not NotImplemented or ns.__ror__(5) is not NotImplemented:
+                    problems.append(("eq-foreign/namespaces", f"{describe(w, ns)}: ==/| with 5 is not NotImplemented"))
+                try:
+                    ns | 5
+                    problems.append(("or-foreign", f"{describe(w, ns)} | 5 did not raise"))
+                except TypeError:
+                    pass
+                d = ns.as_dict()
+                want = f"{type(ns).__name__}(" + ", ".join(f"{k}={v!r}" for k, v in d.items()) + ")"
+                if repr(ns) != want or list(d) != list(type(ns).get_fields()):
+                    problems.append(("repr/namespaces", f"repr is {repr(ns)!r}, expected {want!r}"))
+            for ci, fam in w.nssub.items():
+                for k in fam:
+                    if tuple(k.get_fields().values()) != tuple(w.defaults[ci]) or k.get_render_cls() is not w.classes[ci]:
+                        problems.append(("get-fields", f"namespace class {k.__name__} of class {ci}: fields {dict(k.get_fields())}"))
             # the shared default set of every class is still the all-default set
             for ci in range(1, len(w.classes)):
                 d = RenderArgs(w.classes[ci])
@@ -774,6 +930,14 @@ class Gen:
             args = [rng.choice([0, 0, 1]) for _ in range(rng.choice([1, 1, 2, 3]))]
         self.emit(["dc", parent, args])
 
+    def def_sub(self):
+        """class Sub(<some class of a namespace-class family>): pass"""
+        wa = self.with_args()
+        if wa:
+            ci = self.rng.choice(wa)
+            fam = self.w.nssub[ci]
+            self.emit(["ds", ci, self.rng.randrange(len(fam)), len(fam)])
+
     def with_args(self):
         return [ci for ci in range(len(self.w.classes)) if self.w.defaults[ci] is not None]
 
@@ -784,9 +948,11 @@ class Gen:
             return None
         ci = rng.choice(cands)
         d = self.w.defaults[ci]
+        fam = self.w.nssub[ci]
+        tag = rng.randrange(len(fam)) if rng.random() < 0.6 else 0  # an instance of a subclass of the namespace class
         if rng.random() < default_bias:  # equal to the class default (same values, or ==-equal ones)
-            return [ci, [self.retype(dv) for dv in d] if rng.random() < 0.35 else list(d)]
-        return [ci, [self.val() if rng.random() < 0.7 else dv for dv in d]]
+            return [ci, [self.retype(dv) for dv in d] if rng.random() < 0.35 else list(d), tag]
+        return [ci, [self.val() if rng.random() < 0.7 else dv for dv in d], tag]
 
     def related(self, ci, how):
         """class indices related to ci: 'anc' (incl. self), 'desc' (incl. self), 'unrel'"""
@@ -832,8 +998,8 @@ class Gen:
         nobj, ncls = len(w.objs), len(w.classes)
         kind = rng.choices(
             ["mk-default", "mk-init-only", "mk-ns", "mk-init-ns", "upn", "upc", "cv", "or-nn", "or-nr", "ror", "pos", "tra",
-             "eq", "hash", "has", "get", "nsi", "nsu"],
-            [10, 14, 10, 12, 7, 7, 8, 5, 6, 5, 3, 3, 4, 2, 3, 4, 2, 2])[0]
+             "eq", "hash", "has", "get", "nsi", "nsu", "nseq", "nshash", "attr", "seta", "dela", "gett"],
+            [10, 14, 10, 12, 7, 7, 8, 5, 6, 5, 3, 3, 4, 2, 3, 4, 2, 2, 2, 1, 1.5, 0.7, 0.7, 0.6])[0]
         self.kinds.add(kind)
         if kind == "mk-default":
             return self.emit(["mk", rng.randrange(ncls), None, []])
@@ -913,18 +1079,44 @@ class Gen:
             nv = rng.choice([0, 0, 1, nf, nf, nf + 1])
             nv = min(nv, nf + 1)
             fields = self.fields_for(ci, 0.2)
-            return self.emit(["nsi", ci, [self.val() for _ in range(nv)], fields])
+            return self.emit(["nsi", ci, [self.val() for _ in range(nv)], fields, rng.randrange(len(w.nssub[ci]))])
         if kind == "nsu":
             a = self.rand_ns()
             return self.emit(["nsu", a, self.fields_for(a[0], 0.2)]) if a else None
+        if kind == "nseq":
+            a = self.rand_ns()
+            if a is None:
+                return None
+            if rng.random() < 0.7:  # same class, same or nearly the same values, any subclass
+                b = [a[0], [self.retype(im(x)) if rng.random() < 0.8 else self.val() for x in a[1]],
+                     rng.randrange(len(w.nssub[a[0]]))]
+            else:
+                b = self.rand_ns()
+            return self.emit(["nseq", a, b])
+        if kind == "nshash":
+            a = self.rand_ns()
+            return self.emit(["nshash", a]) if a else None
+        if kind in ("attr", "seta", "dela"):
+            a = self.rand_ns()
+            if a is None:
+                return None
+            idx = rng.randrange(len(a[1]) + 3)
+            return self.emit([kind, a, idx] + ([self.val()] if kind == "seta" else []))
+        if kind == "gett":
+            return self.emit(["gett", rng.randrange(nobj), rng.randrange(3)])
 
     def history(self, nops):
         rng = self.rng
         for _ in range(rng.choice([1, 2, 3, 3, 4, 5, 6])):
             self.def_class()
+        for _ in range(rng.choice([0, 1, 1, 2, 3])):
+            self.def_sub()
         for _ in range(nops):
-            if rng.random() < 0.04:
+            x = rng.random()
+            if x < 0.04:
                 self.def_class()
+            elif x < 0.06:
+                self.def_sub()
             else:
                 self.op()
         self.w.cleanup()
@@ -936,7 +1128,7 @@ def exhaustive_histories():
     pasts (nothing interned / all defaults interned / default-valued but not shared objects around);
     then every constructor call over (class, init in every object, up to two namespaces out of five)
     and every convert / update / | on every object."""
-    forest = [["dc", 0, [0]], ["dc", 1, None], ["dc", 2, [0]], ["dc", 0, [0]]]
+    forest = [["dc", 0, [0]], ["dc", 1, None], ["dc", 2, [0]], ["dc", 0, [0]], ["ds", 1, 0, 1], ["ds", 1, 1, 2]]
     A0, A1, C0, C1, X0 = [1, [0]], [1, [1]], [3, [0]], [3, [1]], [4, [0]]
     pasts = [
         [],
@@ -945,7 +1137,8 @@ def exhaustive_histories():
         [["mk", 3, None, [C1, A1]], ["mk", 1, None, []], ["cv", 1, 1], ["cv", 1, 2], ["mk", 2, 0, []]],
     ]
     A0b, A0f, C0b = [1, ["b0"]], [1, ["f0"]], [3, ["b0"]]   # == the defaults, other types
-    nsl = [A0, A1, C0, C1, X0, A0b, A0f, C0b]
+    A0s, A1s, A0ss = [1, [0], 1], [1, [1], 1], [1, [0], 2]  # instances of Sub(A.Args) and SubSub(Sub)
+    nsl = [A0, A1, C0, C1, X0, A0b, A0f, C0b, A0s, A1s, A0ss]
     lists = [[]] + [[a] for a in nsl] + [[a, b] for a in nsl for b in nsl]
     for past in pasts:
         pre = forest + past
@@ -970,6 +1163,9 @@ def exhaustive_histories():
             for b in nsl:
                 yield pre + [["or", a, ["n", b]], ["ror", a, ["n", b]]]
             yield pre + [["pos", a], ["tra", a, 3], ["mk", a[0], None, []]]
+            yield pre + [["nseq", a, b] for b in nsl] + [["nshash", a], ["attr", a, 0], ["attr", a, 1], ["attr", a, 2],
+                                                         ["seta", a, 0, 5], ["seta", a, 1, 5], ["dela", a, 0], ["dela", a, 2]]
+        yield pre + [["gett", i, k] for i in range(nobj) for k in range(3)]
     # every unknown keyword name (incl. every non-field attribute of the namespace class), one per command
     pre = forest + pasts[1]
     w = World()
@@ -1033,6 +1229,42 @@ def gen_def(rng: random.Random):
 # --------------------------------------------------------------------------------------
 
 
+def metaclass_probes():
+    """the remaining documented rejections of the metaclasses, stated directly on the real code (they have
+    no counterpart in the Lean model): a namespace class whose constructor has a required parameter, a
+    render class that does not derive from `Renderable`; and a `_base=True` namespace base class stays
+    field-less and unassociated"""
+    out = []
+    _ctr[0] += 1
+    cls = type(f"P{_ctr[0]}", (Renderable,), _body())
+
+    def init(self, x):
+        pass
+
+    for meth in ("__init__", "__new__"):
+        try:
+            ArgsNamespaceMeta(f"PA{_ctr[0]}", (ArgsNamespace,), {"__annotations__": {"f0": int}, "f0": 1, meth: init},
+                              render_cls=cls)
+            out.append(Failure(f"define/required-parameter/{meth}",
+                               f"a namespace class whose {meth} has a required parameter was accepted"))
+        except TypeError:
+            pass
+        except Exception as e:  # noqa: BLE001
+            if cls.Args is not None:
+                out.append(Failure(f"define/required-parameter/{meth}", f"{type(e).__name__} but `Args` was set"))
+    if cls.Args is not None:
+        out.append(Failure("define/required-parameter/side-effect", "a rejected namespace class became `Args`"))
+    try:
+        T.RenderableMeta(f"PN{_ctr[0]}", (object,), {})
+        out.append(Failure("define/not-renderable", "a render class that is not a subclass of Renderable was accepted"))
+    except R.RenderableError:
+        pass
+    base = type(T.ArgsDataNamespace)(f"PB{_ctr[0]}", (T.ArgsDataNamespace,), {}, _base=True)
+    if base.__slots__ != () or base._associated or base._FIELDS:
+        out.append(Failure("define/base", "a `_base=True` namespace base class has slots / fields / an association"))
+    return out
+
+
 def lean_str(s: str) -> str:
     return '"' + s.replace("\\", "\\\\").replace('"', '\\"') + '"'
 
@@ -1071,7 +1303,7 @@ class C16(Property):
 
     def extra_checks(self, rng, tier, ev):
         ev["coverage"]["op_outcomes"] = dict(sorted(self._ops.items()))
-        return []
+        return metaclass_probes()
 
     def gen_constants(self):
         # the state right after `import term_image.renderable`, read from the live objects
@@ -1083,9 +1315,9 @@ class C16(Property):
         assert mro == [Renderable]
         lean_args = "none" if args is None else "some [" + ", ".join(str(int(v)) for v in args.get_fields().values()) + "]"
         lean_ada = "[" + ", ".join(
-            f"(0, ⟨0, [{', '.join(str(int(v)) for v in ns.as_dict().values())}]⟩)" for _, ns in ada.items()) + "]"
+            f"(0, ⟨0, [{', '.join(str(int(v)) for v in ns.as_dict().values())}], 0⟩)" for _, ns in ada.items()) + "]"
         base_nss = "[" + ", ".join(
-            f"(0, ⟨0, [{', '.join(str(int(v)) for v in ns.as_dict().values())}]⟩)" for ns in base) + "]"
+            f"(0, ⟨0, [{', '.join(str(int(v)) for v in ns.as_dict().values())}], 0⟩)" for ns in base) + "]"
         interned = [(k, v) for k, v in RenderArgs._interned.items() if k is Renderable]
         lean_interned = "[" + ", ".join("(0, 0)" for k, v in interned if v is base) + "]"
         import builtins
@@ -1181,7 +1413,7 @@ def shrink_history(cmds, key):
     while changed and len(cur) > 1:
         changed = False
         for i in range(len(cur) - 1, -1, -1):
-            if cur[i][0] == "dc":
+            if cur[i][0] in ("dc", "ds"):
                 continue
             cand = cur[:i] + cur[i + 1:]
             try:
@@ -1201,7 +1433,7 @@ def refs_of(c):
     refs = []
     if c[0] == "mk" and c[2] is not None:
         refs.append(c[2])
-    if c[0] in ("upn", "upc", "cv", "hash", "has", "get"):
+    if c[0] in ("upn", "upc", "cv", "hash", "has", "get", "gett"):
         refs.append(c[1])
     if c[0] == "eq":
         refs += [c[1], c[2]]
